@@ -106,6 +106,9 @@ func (e *c09Env) close() {
 func c09Prelude(env container.Environment, kind string) error {
 	var s probe.Script
 	o := sandboxOpts{Script: &s, Env: env, Tag: newTag(), Timeout: 20 * time.Second}
+	if kind == "orphans-many" {
+		o.Timeout = 120 * time.Second // 150 children with 6 MiB each: seconds when many shards do the same on a saturated machine
+	}
 	if kind != "orphans" && kind != "orphans-many" {
 		// (not after the orphan preludes: the scan of /proc takes milliseconds, and the point of those is that the next
 		// run follows at once; whatever survives them carries the check's tag and is swept by the driver)
@@ -151,7 +154,7 @@ func c09Prelude(env container.Environment, kind string) error {
 		return err
 	}
 	if tr.Hung {
-		return vh.Violf("C09:hung", "prelude %s did not return in 20s", kind)
+		return vh.Violf("C09:hung", "prelude %s did not return in %v", kind, o.Timeout)
 	}
 	if tr.Result.Status == runner.StatusRunnerError && tr.Result.Error == "" {
 		return vh.Violf("C09:runner-error-empty", "prelude %s: Runner Error without explanation", kind)
